@@ -54,6 +54,10 @@ CLAIMED = {
          "TLC checks AtMostOneCallback, CallbackOnlyIfDecoded, PositiveOnlyIfApproved, ExactlyOneReplyThenClose, NoCrossTalk, ReplyDecodableByGoClient/Pam and the liveness property Answered; each (stream class, client ending, callback outcome incl. message lengths 0..65600 and errors) edge is executed several times against a real server with streams from the SaslCodec model, random fragmentation, 32 connections in parallel, a recording callback and per-connection tokens; replies are decoded with the bundled Go client and the PAM read rule.",
          "A silent client (neither finishes nor closes) is only required to get no positive answer. Socket reads cannot be forced to given boundaries; fragmentation is by write size and pacing.",
          "4/C05"),
+ "C20": ("TLC over PamClient (module as saslauthd client vs arbitrary server scripts; stale-errno variant refuted on termination) + every script replayed against the compiled unmodified pam_whawty.c under ASan/UBSan",
+         "TLC checks PamSuccessOnlyOnOK / PamSuccessOnOK and the liveness property PamTerminates for every server script (17 reply shapes incl. over-long and inconsistent lengths x cut at 0..4, need-1, need, need+1, all bytes x delay none/short/long x close/stall x errno on entry) and prints the demanded outcome; each script is played by a scripted unix-socket server against the module compiled unmodified against stub PAM headers with AddressSanitizer and UBSan; PAM return code, wall time, the request bytes received (wire format with 256-byte clipping) and sanitizer reports are compared.",
+         "libpam replaced by a small stub; memory safety is decided by the sanitizers during replays, not by TLA+; timeout=1 only.",
+         "4/C20"),
 }
 
 checks = []
